@@ -48,6 +48,7 @@ def run(ctx):
         rule_sink_sequential(ctx, "C12.O", fw, "oligocgr::vectorise")
         rule_flush_pairing(ctx, "C12.O", fw, "oligocgr::vectorise")
         c11.point_text(ctx, "C12.T", fw, "oligocgr::vectorise", "({},{},{})", 3)
+    c03.maps_rules(dep(ctx, "C12", "C03"), "C03")
     fsn = ctx.need("C12.O", "composition::oligocgr::OligoCgrComputer::set_norm")
     if fsn is not None:
         ws = [n for n in fsn.nodes if n.get("k") in ("assign", "assignop")]
